@@ -81,6 +81,8 @@ impl CtlConfig {
     pub fn sequential(io_mode: IoMode) -> Self {
         Self {
             io_mode,
+            // sweeps run thousands of operations inside one execution
+            step_cap: usize::MAX,
             ..Default::default()
         }
     }
